@@ -391,7 +391,7 @@ func (s *Sim) checkIsolation2(ctx *StepCtx, allowed map[uint64]bool, why string)
 // checkGlobal: invariants that must hold at every quiescent point.
 func (s *Sim) checkGlobal(ctx *StepCtx) {
 	m := s.model
-	if s.stopped1 {
+	if s.stopped1 || s.cfg.NoPeek {
 		return
 	}
 	post := sessByID(ctx.post)
@@ -445,7 +445,10 @@ func (s *Sim) finalChecks() {
 	// let every retention and retransmission deadline pass
 	W := m.window()
 	s.mstep("adv", nil, func() { s.advance(W + W + 50*1e6) })
-	st := s.srv.VerifState()
+	st := s.peek()
+	if s.cfg.NoPeek {
+		return
+	}
 	if st.RxLen != 0 {
 		s.violate("C06", "rx.released", "rx:leak", "%d receive transactions remain %v after the last request", st.RxLen, 2*W)
 	}
